@@ -13,7 +13,7 @@ C05 = importlib.import_module('C05')
 
 META = {
     'theorem_files': ['Props/C03.v'],
-    'theorems': ['C03_single_element_fault_localised', 'C03_extra_element_rejected'],
+    'theorems': ['C03_single_element_fault_localised', 'C03_extra_element_rejected', 'C03_unknown_segment_localised', 'C03_single_structural_fault', 'C03_conformant_is_fault_free_instance'],
     'trusted_base': [
         'Coq 8.16.1 kernel; no native_compute',
         'Model/Pipeline.v and everything below it (tied by the correspondence runs of C02/C05/C07)',
